@@ -1644,7 +1644,8 @@ class Slice(Expression):
 
     @property
     def start(self):
-        if len(self.children) > 0:
+        # a single child is the stop (as in slice(stop)), see below
+        if len(self.children) > 1:
             return self.children[0]
         else:
             return None
